@@ -514,10 +514,10 @@ func RunShimCase(c ShimCase) (tr Trace, err error) {
 func (w *world) oob(op Op) {
 	switch op.Kind {
 	case "oobadd":
-		_ = w.p.Ring().Add(agent.AddedKey{PrivateKey: Key(op.Key), Comment: op.Comment})
+		_ = w.p.Ring().Add(agent.AddedKey{PrivateKey: PrivKey(op.Key), Comment: op.Comment})
 	case "oobaddcert":
 		if op.Cert >= 0 && op.Cert < len(w.certs) {
-			_ = w.p.Ring().Add(agent.AddedKey{PrivateKey: Key(w.c.Certs[op.Cert].Key), Certificate: w.certs[op.Cert], Comment: op.Comment})
+			_ = w.p.Ring().Add(agent.AddedKey{PrivateKey: PrivKey(w.c.Certs[op.Cert].Key), Certificate: w.certs[op.Cert], Comment: op.Comment})
 		}
 	case "oobremove":
 		if k, _ := w.target(op); k != nil {
@@ -596,9 +596,9 @@ func (w *world) step(i int, op Op) error {
 				}
 			}
 		case "addkey":
-			opErr = w.sh.Add(agent.AddedKey{PrivateKey: Key(op.Key), Comment: op.Comment, LifetimeSecs: op.Lifetime})
+			opErr = w.sh.Add(agent.AddedKey{PrivateKey: PrivKey(op.Key), Comment: op.Comment, LifetimeSecs: op.Lifetime})
 		case "addcert":
-			opErr = w.sh.Add(agent.AddedKey{PrivateKey: Key(w.c.Certs[op.Cert].Key), Certificate: w.certs[op.Cert], Comment: op.Comment, LifetimeSecs: op.Lifetime})
+			opErr = w.sh.Add(agent.AddedKey{PrivateKey: PrivKey(w.c.Certs[op.Cert].Key), Certificate: w.certs[op.Cert], Comment: op.Comment, LifetimeSecs: op.Lifetime})
 		case "addhard":
 			opErr = w.sh.AddHardCert(key, op.Comment)
 		case "remove":
